@@ -6,6 +6,7 @@ import (
 	"encoding/json"
 	"fmt"
 	"os"
+	"runtime"
 	"testing"
 	"testing/synctest"
 )
@@ -73,9 +74,15 @@ func TestVPReplay(t *testing.T) {
 			<-waitSem
 		}
 		vpQuiesceHook = wait
+		step := wait
+		if in.Spin {
+			// goroutines blocked on a sync.Mutex held by a parked goroutine are not durably blocked: synctest.Wait
+			// would never return. Step by yielding the processor until the next expected label has arrived.
+			step = func() {}
+		}
 		stop := make(chan struct{})
 		go func() {
-			for _, lbl := range in.Resumes {
+			for k, lbl := range in.Resumes {
 				for !vpReleaseNext(lbl) {
 					select {
 					case <-vpR.arrived:
@@ -86,7 +93,20 @@ func TestVPReplay(t *testing.T) {
 				// let the released goroutine run until it blocks again before the next release (the executor runs
 				// one goroutine at a time); goroutines parked on a sync.Mutex are not durably blocked, but then the
 				// run is a deadlock replay and is recognised by the watchdog
-				wait()
+				if in.Spin {
+					next := ""
+					if k+1 < len(in.Resumes) {
+						next = in.Resumes[k+1]
+					}
+					for i := 0; i < 20000; i++ {
+						runtime.Gosched()
+						if next != "" && vpHasWaiter(next) && i > 200 {
+							break
+						}
+					}
+				} else {
+					step()
+				}
 			}
 			vpFreeRun()
 		}()
